@@ -350,6 +350,9 @@ TRUSTED = [
     "tie = identical per-access traces",
     "SC interleaving of accesses (x86 locked RMW for add/sub/exchange); -O0 instrumented build",
     "callers follow the documented protocol (START_WORKING -> get_work until EMPTY), as rt/h_wq.c does",
+    "fast-forward (rt/h_wq.c h_wq_ffwd, pc GFfwd of the model): the fresh worker adds 2^32 - 3 to in_count and "
+    "out_count in one step before its first get_work -- white-box shortcut for 2^32 - 3 rounds of (push one more item; "
+    "get one item) by that worker through the public API (same counters, same number of queued items)",
 ]
 ASSUME = ["in_count/out_count stay below 2^63 (Z in the model)",
           "pushed items are distinct nodes, none NULL or the fifo's stub, and an item is not pushed again "
